@@ -318,8 +318,9 @@ CLASS_OF_REPAIR = {"like_without_dropneginf": "crosstab:neginf-zone",
 
 def classify(case, clause, diagnosis=None):
     """stable key of a rejected case.  Predicates on the CASE select the known classes (the three defects that were
-    repaired by 7d7d291 / 2bd4c42 / a1fb154); only when a case belongs to several of them, TLC's diagnosis (which
-    single repair, taken out of the transcription, reproduces the observed table) chooses among THOSE classes."""
+    repaired by 7d7d291 / 2bd4c42 / a1fb154).  TLC's diagnosis (which single repair, taken out of the transcription,
+    reproduces exactly the observed table) must agree: a case of a known class that fails in a way none of the three
+    old defects explains keeps the generic key crosstab:<clause>, so that a new defect is not filed under an old one."""
     classes = []
     if NINF in case["z"]:
         classes.append("crosstab:neginf-zone")
@@ -329,10 +330,15 @@ def classify(case, clause, diagnosis=None):
         classes.append("crosstab:cat_ids-proper-subset")
     if not classes:
         return "crosstab:%s" % clause
-    if len(classes) == 1:
-        return classes[0]
-    if CLASS_OF_REPAIR.get(diagnosis) in classes:
-        return CLASS_OF_REPAIR[diagnosis]
+    if diagnosis in CLASS_OF_REPAIR:
+        k = CLASS_OF_REPAIR[diagnosis]
+        return k if k in classes else "crosstab:%s" % clause
+    if diagnosis == "unexplained":
+        # without a recorded argsort (dask) the pre-fix slices of a -inf raster depend on numpy's order among equal
+        # zones: the model cannot reproduce them, the predicate alone decides
+        if "crosstab:neginf-zone" in classes and case["job"].get("backend") == "dask":
+            return "crosstab:neginf-zone"
+        return "crosstab:%s" % clause
     return classes[0]
 
 
@@ -379,7 +385,7 @@ def handle(ctx, fails, cases, verdicts, kind):
             key = "crosstab:call-raised:%s" % case["error"].split(":")[0]
             if NINF in case["z"] and case["dim"] == 3 and "zero-size" in case["error"]:
                 key = "crosstab:neginf-zone"       # slices shifted by -inf cells can lose all their valid values
-            elif NINF in case["z"] and case["dim"] == 3:
+            elif NINF in case["z"] and case["dim"] == 3 and "broadcast" in case["error"]:
                 # since 7d7d291 _sort_and_stride assigns the shortened row into the full-width 3-D buffer
                 key = "crosstab:neginf-zone-3d-raises"
             fails.add(key, "call_raised", case,
